@@ -10,8 +10,28 @@ Add Field Kfield19a : HK.
 Notation "0" := (f0 K).
 Notation "1" := (f1 K).
 Infix "+" := fadd. Infix "*" := fmul. Infix "-" := fsub. Infix "/" := fdiv.
-Notation vec := (vec K).
-Notation mat3 := (mat3 K).
+Notation vec := (Tools.vec K).
+Notation mat3 := (Tools.mat3 K).
+Notation dot3 := (Tools.dot3 K).
+Notation cross3 := (Tools.cross3 K).
+Notation triple3 := (Tools.triple3 K).
+Notation vscale := (Tools.vscale K).
+Notation vneg := (Tools.vneg K).
+Notation vadd := (Tools.vadd K).
+Notation vsub := (Tools.vsub K).
+Notation mv := (Tools.mv K).
+Notation det3 := (Tools.det3 K).
+Notation mrow1 := (Tools.mrow1 K).
+Notation mrow2 := (Tools.mrow2 K).
+Notation mrow3 := (Tools.mrow3 K).
+Notation mcol1 := (Tools.mcol1 K).
+Notation mcol2 := (Tools.mcol2 K).
+Notation mcol3 := (Tools.mcol3 K).
+Notation vx := (Tools.vx K).
+Notation vy := (Tools.vy K).
+Notation vz := (Tools.vz K).
+Notation col_orthogonal := (Tools.col_orthogonal K).
+Notation orthogonal := (Tools.orthogonal K).
 
 Ltac vdestruct :=
   repeat match goal with
@@ -19,8 +39,9 @@ Ltac vdestruct :=
          | M : Tools.mat3 K |- _ => destruct M as [[? ?] ?]
          end.
 Ltac vunfold :=
-  unfold det3, triple3, mv, dot3, cross3, vscale, vneg, vadd, vsub, mrow1, mrow2, mrow3,
-         mcol1, mcol2, mcol3, vx, vy, vz in *; simpl in *.
+  unfold Tools.det3, Tools.triple3, Tools.mv, Tools.dot3, Tools.cross3, Tools.vscale, Tools.vneg, Tools.vadd,
+         Tools.vsub, Tools.mrow1, Tools.mrow2, Tools.mrow3, Tools.mcol1, Tools.mcol2, Tools.mcol3,
+         Tools.vx, Tools.vy, Tools.vz in *; simpl in *.
 
 (* (M a).(M b x M c) = det M * a.(b x c), for EVERY matrix M *)
 Lemma triple3_mv (M : mat3) (a b c : vec) :
@@ -47,7 +68,7 @@ Qed.
 Lemma density_core_mv (c4 : K) (M : mat3) (n a b : vec) :
   c4 * dot3 (mv M n) (cross3 (mv M a) (mv M b)) = det3 M * (c4 * dot3 n (cross3 a b)).
 Proof. change (dot3 (mv M n) (cross3 (mv M a) (mv M b))) with (triple3 (mv M n) (mv M a) (mv M b)).
-  rewrite triple3_mv. unfold triple3. ring. Qed.
+  rewrite triple3_mv. unfold Tools.triple3. ring. Qed.
 
 (* reversal *)
 Lemma dot3_neg (a b : vec) : dot3 (vneg a) (vneg b) = dot3 a b.
@@ -68,9 +89,9 @@ Proof. vdestruct. vunfold. ring. Qed.
 Lemma triple3_same_12 (a b : vec) : triple3 a a b = 0.
 Proof. vdestruct. vunfold. ring. Qed.
 Lemma triple3_zero_2 (a b : vec) : triple3 a (vzero K) b = 0.
-Proof. vdestruct. unfold vzero. vunfold. ring. Qed.
+Proof. vdestruct. unfold Tools.vzero. vunfold. ring. Qed.
 Lemma triple3_zero_3 (a b : vec) : triple3 a b (vzero K) = 0.
-Proof. vdestruct. unfold vzero. vunfold. ring. Qed.
+Proof. vdestruct. unfold Tools.vzero. vunfold. ring. Qed.
 (* cyclic symmetry and antisymmetry *)
 Lemma triple3_cyclic (a b c : vec) : triple3 a b c = triple3 b c a.
 Proof. vdestruct. vunfold. ring. Qed.
@@ -91,7 +112,7 @@ Lemma bl_angle_rot (Omega : K -> K -> K -> K -> K) (M : mat3) (a b c : vec) :
   col_orthogonal M -> det3 M = 1 ->
   bl_angle K Omega (mv M a) (mv M b) (mv M c) = bl_angle K Omega a b c.
 Proof.
-  intros HO HD. unfold bl_angle. rewrite !dot3_mv by exact HO. rewrite triple3_mv, HD.
+  intros HO HD. unfold Tools.bl_angle. rewrite !dot3_mv by exact HO. rewrite triple3_mv, HD.
   f_equal. ring.
 Qed.
 
@@ -99,11 +120,11 @@ Qed.
 Lemma bl_angle_neg (Omega : K -> K -> K -> K -> K) (a b c : vec) :
   (forall d1 d2 d3 t, Omega d1 d2 d3 (fopp t) = fopp (Omega d1 d2 d3 t)) ->
   bl_angle K Omega (vneg a) (vneg b) (vneg c) = fopp (bl_angle K Omega a b c).
-Proof. intros HOdd. unfold bl_angle. rewrite !dot3_neg, triple3_neg. apply HOdd. Qed.
+Proof. intros HOdd. unfold Tools.bl_angle. rewrite !dot3_neg, triple3_neg. apply HOdd. Qed.
 
 (* equal vectors: the triangle is degenerate; needs Omega(.,.,.,0) = 0 (the code's explicit test) *)
 Lemma bl_angle_uniform (Omega : K -> K -> K -> K -> K) (a : vec) :
   (forall d1 d2 d3, Omega d1 d2 d3 0 = 0) -> bl_angle K Omega a a a = 0.
-Proof. intros H0. unfold bl_angle. rewrite triple3_same_12. apply H0. Qed.
+Proof. intros H0. unfold Tools.bl_angle. rewrite triple3_same_12. apply H0. Qed.
 
 End Vec.
